@@ -70,7 +70,8 @@ ssize_t HeaderStreamProto::onRecvData(const void *data_ptr, size_t data_size)
         return -2;
     }
 
-    if (content_size + kHeadSize > data_size)   //! 不够
+    //! 用64位计算，content_size 接近 2^32 时 32 位加法会回绕，导致误判为数据已足够
+    if (static_cast<uint64_t>(content_size) + kHeadSize > data_size)   //! 不够
         return 0;
 
     const char *str_ptr = static_cast<const char*>(unpack.fetchNoCopy(content_size));
